@@ -116,17 +116,19 @@ def decodeMxidMapping (v : Option JVal) : Dec (Option Bytes) × Bool :=
     (⟨some u.val, k.err || u.err⟩, sigsUnmodelled)
   | some _ => (⟨none, true⟩, false)
 
-/-- `NewMemberContentFromEvent`: full decode, falling back to the partial `membershipContent`;
-    an error only if the partial decode fails too.  Fields the auth code reads come from the same lookups. -/
+/-- `NewMemberContentFromEvent`: the content restricted to the members named EXACTLY as `MemberContent`'s fields
+    (`exactFieldsOnly`: `lookupExact`, not encoding/json's folded matching — c080830), then the full decode, falling back
+    to the partial `membershipContent`; an error only if the partial decode fails too.  Fields the auth code reads come
+    from the same lookups.  (The members inside `third_party_invite` / `mxid_mapping` are still matched folded.) -/
 def decodeMemberContent (c : Option JVal) : R MemberContent :=
   match c with
   | none => notAllowed
   | some .null => .ok {}
   | some (.obj kvs) =>
-    let m := decString (lookupField kvs b!"membership")
-    let tp := decodeThirdParty (lookupField kvs b!"third_party_invite")
-    let av := decString (lookupField kvs b!"join_authorised_via_users_server")
-    let (mm, mmUnmodelled) := decodeMxidMapping (lookupField kvs b!"mxid_mapping")
+    let m := decString (lookupExact kvs b!"membership")
+    let tp := decodeThirdParty (lookupExact kvs b!"third_party_invite")
+    let av := decString (lookupExact kvs b!"join_authorised_via_users_server")
+    let (mm, mmUnmodelled) := decodeMxidMapping (lookupExact kvs b!"mxid_mapping")
     if mmUnmodelled then .error (.unmodelled "mxid_mapping.signatures")
     else if m.err || tp.err || av.err || mm.err then notAllowed
     else .ok { membership := m.val, thirdPartyInvite := tp.val, authorisedVia := av.val, mxidMappingUserID := mm.val }
@@ -775,11 +777,11 @@ def MembershipAllower.restrictedJoin (m : MembershipAllower) : R Bytes := do
   match m.ctx.provider.member m.newMember.authorisedVia with
   | none => notAllowed
   | some other =>
-    -- otherMember.Membership(): decode {membership string}; then the state key must be present
+    -- otherMember.Membership(): decode {membership string} (exact member name); then the state key must be present
     let ms : Option Bytes := match other.content with
       | none => none
       | some .null => some []
-      | some (.obj kvs) => let d := decString (lookupField kvs b!"membership"); if d.err then none else some d.val
+      | some (.obj kvs) => let d := decString (lookupExact kvs b!"membership"); if d.err then none else some d.val
       | some _ => none
     match ms with
     | none => notAllowed
